@@ -541,7 +541,7 @@ func caseThr(h *H, r *hlib.Rng, variant string) {
 	h.emit(fmt.Sprintf("CThr %s %s %s %s", e.coq(), x.coq(donorPow), coqI(int64(k)), obs), map[string]any{"hdr": x.desc(), "k": k, "h0": e.h0.Hex(), "h1": e.h1.Hex(), "got": obs}, nt)
 	h.rep.Count("thr:" + obs)
 	if p != "" {
-		h.fail(panicSig("CheckWorkThreshold", p), fmt.Sprintf("CheckWorkThreshold(difficulty=%s, thresholdDiff=%d) panicked: %s", x.diff, k, p))
+		h.fail(panicSig("CheckWorkThreshold", p, x), fmt.Sprintf("CheckWorkThreshold(difficulty=%s, thresholdDiff=%d) panicked: %s", x.diff, k, p))
 		return
 	}
 	eh, eerr := engHash(e, x)
@@ -562,9 +562,18 @@ func caseThr(h *H, r *hlib.Rng, variant string) {
 	}
 }
 
-func panicSig(fn string, p string) string {
+// panicSig: the two recorded division-by-zero input classes get their own signature; any other panic is "panic:<fn>"
+func panicSig(fn string, p string, x hdrT) string {
 	if containsDivZero(p) {
-		return "workshare-div-by-zero:" + fn
+		if x.diff.Sign() == 0 {
+			return "workshare-div-by-zero:" + fn + ":difficulty=0"
+		}
+		var sd *big.Int
+		wh, _ := x.build()
+		guard(func() { sd = core.CalculateKawpowShareDiff(wh) })
+		if x.ptn.Uint64() >= fork && sd != nil && sd.Sign() == 0 && x.diff.Cmp(big.NewInt(int64(params.ExpectedWorksharesPerBlock))) <= 0 {
+			return "workshare-div-by-zero:" + fn + ":kawpow-share-diff=0"
+		}
 	}
 	return "panic:" + fn
 }
@@ -647,7 +656,7 @@ func caseWs(h *H, r *hlib.Rng, variant string) {
 		fmt.Sprintf("%v/%s", preFork, obs))
 	h.rep.Count("ws:" + obs)
 	if p != "" {
-		h.fail(panicSig("CheckIfValidWorkShare", p), fmt.Sprintf("CheckIfValidWorkShare(difficulty=%s, primeTerminus=%s) panicked: %s", x.diff, x.ptn, p))
+		h.fail(panicSig("CheckIfValidWorkShare", p, x), fmt.Sprintf("CheckIfValidWorkShare(difficulty=%s, primeTerminus=%s) panicked: %s", x.diff, x.ptn, p))
 		return
 	}
 	// monitors
@@ -682,7 +691,7 @@ func classCorpus() []string {
 
 func caseClass(h *H, r *hlib.Rng, variant string) {
 	x := genHdr(r)
-	if r.Chance(50) {
+	if r.Chance(50) || (x.aux >= 2 && r.Chance(80)) {
 		x.ptn = new(big.Int).SetUint64(fork + uint64(r.Intn(int(2*trans))))
 	}
 	if r.Chance(50) && x.diff.Sign() <= 0 {
@@ -716,6 +725,13 @@ func caseClass(h *H, r *hlib.Rng, variant string) {
 	}
 	if x.aux == 4 && r.Chance(80) {
 		tune("scr")
+	}
+	// the other donor chain's share difficulty is trivial half of the time: reading the wrong one becomes visible
+	if x.aux == 4 && r.Chance(50) {
+		x.shaD = big.NewInt(1)
+	}
+	if (x.aux == 2 || x.aux == 3) && r.Chance(50) {
+		x.scrD = big.NewInt(1)
 	}
 	post := func(aux int) {
 		x.ptn, x.aux, x.diff = new(big.Int).SetUint64(fork+trans+9), aux, big.NewInt(1000)
@@ -770,11 +786,11 @@ func caseClass(h *H, r *hlib.Rng, variant string) {
 		fmt.Sprintf("%d/%v/%s", x.aux, x.ptn.Uint64() >= fork, obs))
 	h.rep.Count("class:" + obs)
 	if p != "" {
-		h.fail(panicSig("UncleWorkShareClassification", p), fmt.Sprintf("UncleWorkShareClassification(difficulty=%s, primeTerminus=%s, powid=%d) panicked: %s", x.diff, x.ptn, x.aux, p))
+		h.fail(panicSig("UncleWorkShareClassification", p, x), fmt.Sprintf("UncleWorkShareClassification(difficulty=%s, primeTerminus=%s, powid=%d) panicked: %s", x.diff, x.ptn, x.aux, p))
 		return
 	}
 	// monitors: a share of a donor chain counts only with donor hash strictly-or-equal below its declared target
-	if !e.fake && x.ptn.Uint64() >= fork+trans && x.aux >= 2 && x.aux <= 4 && got == types.Valid {
+	if x.ptn.Uint64() >= fork && x.aux >= 2 && x.aux <= 4 && got == types.Valid {
 		d := x.shaD
 		if x.aux == 4 {
 			d = x.scrD
